@@ -246,6 +246,43 @@ def theorem_instances(ctx):
                        {"kind": "counterexample", "input": {"lines": ls}, "implementation": False, "oracle": True})
 
 
+def check_gather(ctx, n):
+    """C14.Gather.joined_fixed against get_code_line (fixed branch) + the join of the parse loop"""
+    from fortls.parsers.internal.parser import FortranFile
+    coq = ctx.coq("From FV Require Import Base.Str C14.Gather.")
+    r = ctx.rng
+    stmts = ["integer alpha, beta, gam", "call ext_sub(x, y, z + 1)", "x = y * (z + 1) - arr(2)", "real v_one(3), v_two", "print *, x, y, z"]
+    fillers = ["", "   ", "C a comment", "c     & looks like one", "* star", "! bang", "d debug", "\t"]
+    stops = [[], ["      end"], ["10    continue"], ["      x = 2", "     & + 3"], ["#ifdef X"]]
+    exprs, meta = [], []
+    for _ in range(n):
+        stmt = r.choice(stmts)
+        cuts = sorted(r.sample(range(1, len(stmt)), r.choice([0, 1, 2, 3])))
+        bodies = [stmt[a:b] for a, b in zip([0] + cuts, cuts + [len(stmt)])]
+        lines = [" " * r.choice([6, 7, 9]) + bodies[0]]
+        for b in bodies[1:]:
+            lines += [r.choice(fillers) for _ in range(r.choice([0, 0, 1, 2]))]
+            lines.append("     " + r.choice("&1+$.!*x") + b)
+        lines += [r.choice(fillers) for _ in range(r.choice([0, 1]))]
+        lines += r.choice(stops)
+        f = FortranFile("/nonexistent/gather.f")
+        f.set_contents(list(lines))
+        f.fixed = True
+        _, cur, post = f.get_code_line(0, backward=False)
+        got = "".join([cur] + post)
+        ctx.count(("gather", tuple(lines)), len(bodies) > 1)
+        if got.replace(" ", "") != stmt.replace(" ", ""):
+            ctx.report("C14:continuation", "a fixed-form statement split over continuation lines is not reassembled",
+                       {"kind": "counterexample", "input": {"lines": lines, "statement": stmt}, "implementation": got})
+        exprs.append("str_eqb (joined_fixed %s %s) %s" % (cstr(lines[0]), clist(lines[1:], cstr), cstr(got)))
+        meta.append({"lines": lines, "implementation": got})
+    bad = coq.bools(exprs, shard=300)
+    ctx.cov["traces_validated_against_impl"] += len(exprs)
+    for b in bad[:3]:
+        ctx.report("C14:model-impl-mismatch", "get_code_line (fixed form) differs from C14.Gather.joined_fixed", {"kind": "broken-correspondence", "input": meta[b],
+                   "correspondence": "FV.C14.Gather.joined_fixed vs FortranFile.get_code_line(forward, fixed) + join"}, found_input=False)
+
+
 KNOWN = [
     ("C14:unindented-free-as-fixed", ["program p", "call foo()", "end program p"], False,
      "a free-form program without any indented line, declaration or '&' is classified as fixed form (then `call ...` reads as a comment)"),
@@ -289,6 +326,7 @@ def run(ctx):
     q = ctx.quick()
     known(ctx)
     theorem_instances(ctx)
+    check_gather(ctx, 300 if q else 6000)
     check_detection(ctx, 1500 if q else 30000)
     check_pairs(ctx, 40 if q else 1000)
 
